@@ -738,8 +738,71 @@ func (e *Exec) seqTerm(st *State, s *SeqV) *smt.Term {
 			return t
 		}
 	}
+	// the whole contents of a slice whose memory has not been written: a
+	// canonical term of the slice header, the same for the code and for a
+	// contract that mentions the same slice (possibly under a quantifier)
+	if s.Len.Op == "app" && s.Len.Name == "sl_len" && len(s.Len.Args) == 1 {
+		h := s.Len.Args[0]
+		if r := s.Read(e.seqProbe); r.Op == "app" && strings.HasPrefix(r.Name, "mem_") && len(r.Args) == 2 && r.Args[1] == e.seqProbe &&
+			r.Args[0].Op == "app" && r.Args[0].Name == "sl_reg" && r.Args[0].Args[0] == h {
+			t := c.App("slice_seq_"+r.Name, sortByteSeq, h)
+			if e.sliceSeqDone == nil {
+				e.sliceSeqDone = map[int]bool{}
+			}
+			if !e.sliceSeqDone[t.ID] {
+				e.sliceSeqDone[t.ID] = true
+				k := c.BoundVar("defk", smt.BV(64))
+				at := func(x, i *smt.Term) *smt.Term { return c.App(fmt.Sprintf("seq_at%d", s.W), smt.BV(s.W), x, i) }
+				e.addAxioms(
+					c.Eq(c.App("seq_len", smt.BV(64), t), s.Len),
+					c.Forall([]*smt.Term{k}, c.Implies(c.And(c.BVSle(bv64(c, 0), k), c.BVSlt(k, s.Len)), c.Eq(at(t, k), s.Read(k)))))
+			}
+			e.seqNames = append(e.seqNames, seqName{s, t})
+			return t
+		}
+	}
 	key := fmt.Sprintf("%d|%d|%d", s.W, s.Len.ID, s.Read(e.seqProbe).ID)
 	if t, ok := e.seqByKey[key]; ok {
+		e.seqNames = append(e.seqNames, seqName{s, t})
+		return t
+	}
+	// a sequence that depends on quantified variables is named by a function
+	// of them; the function is shared by all quantifiers whose sequence has the
+	// same structure up to the names of those variables (so the invariant and
+	// the postcondition of a loop talk about the same seq!N(k))
+	if fv := smt.FreeBVars(s.Len, s.Read(e.seqProbe)); len(fv) > 0 && len(c.FreshParams) == 0 {
+		canon := map[*smt.Term]*smt.Term{}
+		for i, v := range fv {
+			if e.canonVars == nil {
+				e.canonVars = map[string]*smt.Term{}
+			}
+			ck := fmt.Sprintf("%d|%s", i, v.Sort.String())
+			cv, ok := e.canonVars[ck]
+			if !ok {
+				cv = c.BoundVar("canon", v.Sort)
+				e.canonVars[ck] = cv
+			}
+			canon[v] = cv
+		}
+		ckey := fmt.Sprintf("canon|%d|%d|%d", s.W, c.Subst(s.Len, canon).ID, c.Subst(s.Read(e.seqProbe), canon).ID)
+		if name, ok := e.seqFuncByKey[ckey]; ok {
+			t := c.App(name, sortByteSeq, fv...)
+			e.seqByKey[key] = t
+			e.seqNames = append(e.seqNames, seqName{s, t})
+			return t
+		}
+		t := c.FreshOver("seq", sortByteSeq, s.Len, s.Read(e.seqProbe))
+		if e.seqFuncByKey == nil {
+			e.seqFuncByKey = map[string]string{}
+		}
+		e.seqFuncByKey[ckey] = t.Name
+		e.seqByKey[key] = t
+		k := c.BoundVar("defk", smt.BV(64))
+		at := func(x, i *smt.Term) *smt.Term { return c.App(fmt.Sprintf("seq_at%d", s.W), smt.BV(s.W), x, i) }
+		ln := func(x *smt.Term) *smt.Term { return c.App("seq_len", smt.BV(64), x) }
+		e.addAxioms(
+			c.Eq(ln(t), s.Len),
+			c.Forall([]*smt.Term{k}, c.Implies(c.And(c.BVSle(bv64(c, 0), k), c.BVSlt(k, s.Len)), c.Eq(at(t, k), s.Read(k)))))
 		e.seqNames = append(e.seqNames, seqName{s, t})
 		return t
 	}
@@ -1081,6 +1144,18 @@ func (se *specEnv) call(n *SCall) Value {
 			se.fail("pristine of a non-pointer")
 		}
 		return boolV(se.pristinePtr(pv))
+	case "localof":
+		// localof("[]byte"): the local variable of that type visible at the loop
+		// the invariant belongs to, when there is exactly one
+		str, ok := n.Args[0].(*SStr)
+		if !ok {
+			se.fail("localof(\"type\")")
+		}
+		f, ok := se.vars["#localof:"+strings.ReplaceAll(str.V, "uint8", "byte")]
+		if !ok {
+			se.fail("localof(%q): no unique local variable of that type at this loop", str.V)
+		}
+		return f(se.st)
 	case "loopvar":
 		// loopvar("time.Duration"): the loop-carried variable of that type, when
 		// the loop has exactly one (bound by the loop the invariant belongs to)
